@@ -4,10 +4,42 @@ import json, os
 HERE = os.path.dirname(os.path.abspath(__file__))
 BASE = json.load(open("/root/.vp/BASELINE.json"))["cmd"] if os.path.exists("/root/.vp/BASELINE.json") else "cargo test --workspace --offline"
 
+KV = "Kani 0.68/CBMC harnesses and contract stubs on the real crate in place"
+VX = "Verus 0.2026.09.13 on function text extracted mechanically from the working tree"
 CLAIMED = {
- "C17": dict(cat="proof", tech="Kani function harnesses on the real code (full 64-bit domain) + Verus on mechanically extracted function text",
+ "C01": dict(cat="proof", tech=VX + " (check_indices, preliminary_verify, verify: unbounded) + " + KV + " (per-signature checks, bounded shapes)",
+             text="Every clause of the acceptance rule (>= k pairwise distinct indices, each in [0,m), each won with the signature's own committed stake, Merkle membership of the (key, stake) pairs, BLS aggregate check on exactly those pairs) is a postcondition over uninterpreted cryptographic predicates, proved by Verus on the extracted text of check_indices / preliminary_verify / verify for any number of signatures and indices, and by Kani on the real per-signature functions.",
+             note="BLS (blst), dense mapping (Blake2b), Merkle membership (C09) and the lottery predicate (C08) are callee contracts; batch_verify and re-encodings are not under contract; std HashSet as a mathematical set.", ref="§4 C01"),
+ "C03": dict(cat="proof", tech=VX + " (whole per-link acceptance rule) + Kani function contract on Epoch::has_gap_with",
+             text="verify_certificate / verify_standard_certificate / verify_genesis_certificate and every sub-check verified modularly against the statement's per-link rule: no conjunct can be dropped or weakened without a named obligation failing.",
+             note="Hashing, multi-signature verification (C01), Ed25519 and key decoding are uninterpreted callee contracts; reaching genesis needs hash acyclicity (assumed); the default verify_certificate_chain loop and the client cache are not under contract.", ref="§4 C03"),
+ "C05": dict(cat="other", tech=KV + " (built-in panic / bounds / overflow / capacity checks), bounded in input length",
+             text="Bounded stand-in: every hand-written legacy decoder of mithril-stm is run by Kani on all byte strings of a few stated lengths; obligations are Kani's panic, bounds, arithmetic-overflow and capacity-overflow checks.",
+             note="Bounded in input length (never counted as proved); blst point validation and ciborium are assumed total; round trips and serde/JSON/hex decoders are not decided.", ref="§4 C05"),
+ "C06": dict(cat="proof", tech=KV + ", 96-byte comparison loop completely unrolled",
+             text="The Ord impls of the registration entry types are proved to be the lexicographic total order on (stake, 96-byte key encoding) - the law that makes BTreeSet iteration order, hence leaf order, signer slots and the aggregate key, a function of the registered set.",
+             note="PARTIAL: blst encoding as contract stub; std BTreeSet ordered by Ord (assumed); order-independence of the executed registration code, serde round trips and collision resistance are not decided.", ref="§4 C06"),
+ "C07": dict(cat="proof", tech=VX + " (KES window, KeyRegWrapper::register, OpCert::validate, mithril-stm registration)",
+             text="Every conjunct of the registration rule (opcert signed by the cold key, key signed by that opcert's KES key within one period, proof of possession, pool id derived from the cold key and present in the stake distribution, key not already registered, stake taken from the distribution) is a postcondition proved on the extracted text in both crates.",
+             note="Ed25519, Sum6KES and BLS PoP assumed sound; pool-id hashing/bech32 and std maps/sets are contracts; default feature set only; aggregator-side async services not under contract.", ref="§4 C07"),
+ "C08": dict(cat="proof", tech="Kani loop-free harness (phi_f = 1) + " + VX + " (signer and verifier loops against one lottery predicate)",
+             text="PARTIAL: 'always won when phi_f is 1' for all 2^512 draws, and 'signer and verifier decide identically' (the signer proposes exactly the indices the verifier accepts, on the same operands).",
+             note="Exactness against the real-valued threshold, monotonicity, zero-stake and the negligible band are NOT decided (f64::ln, unbounded rationals).", ref="§4 C08"),
+ "C09": dict(cat="proof", tech=VX + " (heap-index algebra, unbounded) + " + KV + " at an ideal hash (bounded tree size)",
+             text="Heap-index laws of the signer-registration Merkle tree proved without bound; generate/verify completeness and soundness of the real generic tree code checked at an ideal (collision-free) hash for every tree up to the bound, every selection and every proof value.",
+             note="PARTIAL: the STM tree only; tree size bounded; the generic Merkle tree / map delegate to ckb-merkle-mountain-range (external): not under contract.", ref="§4 C09"),
+ "C11": dict(cat="proof", tech=VX + " (both proof formats, message reconstruction, stake leaf encoding)",
+             text="verify() of both proof formats: every reported item is a leaf proven under one single root, nothing else is reported, block number / offset copied; the client's signed message is rebuilt from the verified value; the stake-distribution leaf encoding is checked for injectivity (fails: known finding F-C11-1, replayed on the real code; holds for fixed-length identifiers).",
+             note="MKMapProof verify/contains (ckb MMR) and decoding are callee contracts; tx/block leaf encoding injectivity and SHA-256 message match assumed.", ref="§4 C11"),
+ "C17": dict(cat="proof", tech=KV + " (full 64-bit domain) + " + VX,
              text="Per-call postconditions of the real beacon functions proved by Kani/CBMC for all 2^192 inputs; the extracted text of the same functions verified by Verus against the mathematical spec, from which monotonicity, whole-step and block-range-boundary clauses are derived as lemmas. time_point_to_signed_entity proved to be a function of its arguments with the beacon callee as contract stub.",
-             note="Trusted: operator contracts in Verus are exactly those Kani proves on the real impls; std::cmp::max semantics; equal configuration on signer and aggregator is not decided.", ref="§4 C17"),
+             note="Operator contracts in Verus are exactly those Kani proves on the real impls; std::cmp::max semantics; equal configuration on signer and aggregator is not decided.", ref="§4 C17"),
+ "C18": dict(cat="proof", tech=KV + ": representation invariant + per-operation contracts from arbitrary invariant states",
+             text="Inv (len <= size, single generation) and per-operation contracts of the real generic pool instantiated with generation-tagged resources: an induction over all sequential histories for the stated capacities.",
+             note="Capacity <= 2 (shapes enumerated); no threads in Kani: interleavings inside one operation and the wake-up clause are not decided.", ref="§4 C18"),
+ "C20": dict(cat="proof", tech=KV + ", loop-free over all epochs",
+             text="PARTIAL: the epoch-offset algebra shared by signer and aggregator (a key recorded at e is retrieved for signing at e + signing offset; next signers of e are current signers of e+1; retrieval fails exactly at epoch 0).",
+             note="Only the offset algebra; at-most-once signing, signing after registration and restarts (async state machine over SQLite) are not decided.", ref="§4 C20"),
 }
 NA = {
  "C04": "Tamper-evidence is injectivity of a byte-string pre-image built from Strings, chrono timestamps, JSON-hex keys and serde_json round trips under SHA-256: Verus has no str/byte reasoning, CBMC cannot execute serde/JSON/hex symbolically beyond a few bytes, and 'different pre-image => different hash' is an assumption, so no contract within reach expresses or decides it.",
@@ -20,6 +52,7 @@ NA = {
  "C19": "Tar/zstd unpacking, HTTP download, file moves and failure injection on the file system; nothing here is within either verifier's input language, and the property is about directory contents after an I/O sequence.",
 }
 PENDING = {}  # filled below for properties planned but whose check is not committed yet
+NA["C02"] = "select_valid_signatures_for_k_indices works on BTreeMap/HashMap/HashSet keyed by references with value hashing, closures and iterator chains: outside Verus' subset, and CBMC does not terminate on hashbrown (two HashSet<u64> inserts alone exceeded 15 min in the C01 probes); a per-call contract also cannot express 'for all multisets and orderings' without executing the maps. Observed and not claimed: a repeated copy of a signature makes aggregation fail (DESIGN.md section 6)."
 ALL = ["C%02d" % i for i in range(1, 21)]
 for p in ALL:
     if p not in CLAIMED and p not in NA:
